@@ -1,0 +1,86 @@
+//go:build verif
+
+package fasthttp
+
+import (
+	"bufio"
+	"bytes"
+	"errors"
+	"reflect"
+	"unsafe"
+
+	"github.com/valyala/bytebufferpool"
+)
+
+// Exports for the C11 harness (/verif/harness/c11): the pooled requestStream object.
+
+func verifC11RsFieldValue(v reflect.Value) reflect.Value {
+	return reflect.NewAt(v.Type(), unsafe.Pointer(v.UnsafeAddr())).Elem()
+}
+
+// VerifC11RequestStreamFields returns the field names of requestStream.
+func VerifC11RequestStreamFields() []string {
+	t := reflect.TypeOf(requestStream{})
+	names := make([]string, 0, t.NumField())
+	for i := 0; i < t.NumField(); i++ {
+		names = append(names, t.Field(i).Name)
+	}
+	return names
+}
+
+func verifC11RsZero(rs *requestStream) (names []string, zero []bool) {
+	v := reflect.ValueOf(rs).Elem()
+	for i := 0; i < v.NumField(); i++ {
+		names = append(names, v.Type().Field(i).Name)
+		zero = append(zero, v.Field(i).IsZero())
+	}
+	return names, zero
+}
+
+// VerifC11RequestStreamRelease makes every field of a requestStream non-zero,
+// calls releaseRequestStream and reports which fields are zero afterwards.
+// A field of a type unknown here panics: the harness must then be extended.
+func VerifC11RequestStreamRelease() (names []string, zero []bool) {
+	rs := &requestStream{}
+	v := reflect.ValueOf(rs).Elem()
+	for i := 0; i < v.NumField(); i++ {
+		f := verifC11RsFieldValue(v.Field(i))
+		switch f.Kind() {
+		case reflect.Int:
+			f.SetInt(7)
+		case reflect.Bool:
+			f.SetBool(true)
+		default:
+			switch f.Type() {
+			case reflect.TypeOf((*bodyStreamHeader)(nil)).Elem():
+				h := &RequestHeader{}
+				h.SetContentLength(7)
+				f.Set(reflect.ValueOf(h))
+			case reflect.TypeOf((*bytes.Reader)(nil)):
+				f.Set(reflect.ValueOf(bytes.NewReader([]byte("dirty"))))
+			case reflect.TypeOf((*bufio.Reader)(nil)):
+				f.Set(reflect.ValueOf(bufio.NewReader(bytes.NewReader([]byte("dirty")))))
+			case reflect.TypeOf((*error)(nil)).Elem():
+				f.Set(reflect.ValueOf(errors.New("dirty")))
+			default:
+				panic("verif: requestStream field of unknown type: " + v.Type().Field(i).Name)
+			}
+		}
+		if f.IsZero() {
+			panic("verif: could not dirty requestStream field " + v.Type().Field(i).Name)
+		}
+	}
+	releaseRequestStream(rs)
+	return verifC11RsZero(rs)
+}
+
+// VerifC11RequestStreamAcquire acquires a stream for a 5-byte body and reports
+// which fields are zero right after acquireRequestStream, then releases it.
+func VerifC11RequestStreamAcquire() (names []string, zero []bool) {
+	h := &RequestHeader{}
+	h.SetContentLength(5)
+	rs := acquireRequestStream(&bytebufferpool.ByteBuffer{B: []byte("hello")}, bufio.NewReader(bytes.NewReader(nil)), h)
+	names, zero = verifC11RsZero(rs)
+	releaseRequestStream(rs)
+	return names, zero
+}
